@@ -143,6 +143,10 @@ func ccFlame(g *ccGates) *flamego.Flame {
 		hd.Set("X-Url", c.URLPath("named", "v", c.Request().Header.Get("X-Val")))
 		panic(fmt.Sprintf("boom-%s-%d-", c.Param("v"), id))
 	})
+	// "cold" routes: a static segment that has no sibling registered after it (alone in its method tree / the only child of
+	// its parent), so that nothing at set-up time has looked at it yet - the first requests do, concurrently
+	f.Delete("/lone/{v}", h("lone"))
+	f.Get("/deep/er/{v}", h("deep"))
 	f.Get("/s", h("static"))
 	f.Get("/p/{v}", h("param")).Name("named")
 	f.Get("/o/?{v}", h("opt"))
@@ -158,8 +162,12 @@ func m0(rq ccReq) string { return fmt.Sprintf("boom-%s-%d-", rq.Val, rq.ID) }
 
 func ccRequest(rq ccReq) *http.Request {
 	path := map[string]string{"static": "/s", "param": "/p/" + rq.Val, "opt": "/o/" + rq.Val, "regex": "/r/" + rq.Val,
-		"all": "/a/" + rq.Val, "hdr": "/h", "render": "/rd/" + rq.Val, "panic": "/pn/" + rq.Val}[rq.Route]
-	r, _ := http.NewRequest("GET", path, nil)
+		"all": "/a/" + rq.Val, "hdr": "/h", "render": "/rd/" + rq.Val, "panic": "/pn/" + rq.Val, "lone": "/lone/" + rq.Val, "deep": "/deep/er/" + rq.Val}[rq.Route]
+	method := "GET"
+	if rq.Route == "lone" {
+		method = "DELETE"
+	}
+	r, _ := http.NewRequest(method, path, nil)
 	r.Header.Set("X-Req-Id", strconv.Itoa(rq.ID))
 	r.Header.Set("X-Val", rq.Val)
 	r.Header.Set("X-K", "k")
@@ -277,7 +285,7 @@ func ccReplay(raw json.RawMessage, idx int, tr *traceWriter) {
 
 func ccGen(seed int64, n int, args []string, out *json.Encoder) {
 	rng := rand.New(rand.NewSource(seed))
-	kinds := []string{"static", "param", "opt", "regex", "all", "hdr", "render", "render", "panic", "panic"}
+	kinds := []string{"static", "param", "opt", "regex", "all", "hdr", "render", "render", "panic", "panic", "lone", "lone", "lone", "deep", "deep"}
 	for i := 0; i < n; i++ {
 		k := 8 + rng.Intn(57)
 		c := ccCase{Sched: []int{}}
